@@ -176,6 +176,8 @@ def encoder_clause(model, rep, funcs):
             elif c.func.attr == "add_tasks":
                 dup = c.args[0] if c.args else None
                 ok_t, why = denotes_T(f, dup, assigns) if dup is not None else (False, "")
+                if not ok_t and isinstance(dup, ast.Call) and dotted(dup.func) == "len" and dup.args and dimension_of(f, dup.args[0], assigns) == "T":
+                    ok_t = True  # the count written in place: add_tasks(len(templates), ...)
                 if not ok_t and isinstance(dup, ast.Name):
                     vals = assigns.get(dup.id, [])
                     ok_t = any(isinstance(v, ast.Call) and dotted(v.func) == "len" and v.args and dimension_of(f, v.args[0], assigns) == "T" for v in vals)
